@@ -28,7 +28,9 @@ TEXT = {
          "executions with add / promote / remove requests (incl. the leader) under drops, delays, partitions and crashes, in a free family and in an S5-free family (no node ever two "
          "configurations behind). Known finding S5 is matched by its signature only.", "6 C09, 12.4"),
  "C16": ("The scenario driver establishes and maintains a healthy leader (prompt automatic network among a majority, free timers there) after a random prelude, while the adversary owns every "
-         "other node's links, timer, crashes and restarts; the monitor requires the leader to keep leading and no term of the majority to grow while the period lasts; the adversary also delivers vote requests of minority nodes with higher terms to majority nodes.", "6 C16, 12.11"),
+         "other node's links, timer, crashes and restarts; the monitor requires the leader to keep leading and no term of the majority to grow while the period lasts; the adversary also delivers vote requests of minority nodes with higher terms to majority nodes. Mechanism clause on every execution: a node raises its term only after "
+         "one round of prevote requests for that term was granted by a majority (CandidateWithoutPrevoteMajority; found defect S21). Design: Raft.tla with vote requests and replies as separate "
+         "steps (MC_async3: late, lost, reordered replies), invariant PrevoteForThisTerm; counterexamples under weakenings replayed.", "6 C16, 12.11, 12.17"),
  "C10": ("Every snapshot published on any node (taken locally or installed) is compared by TLC with the operations applied up to its label (none later, none missing, in order) and with the configuration "
          "committed at the label; every restored state and every Apply is checked for double or skipped application. Scenarios: automatic and scheduler-triggered snapshots, gated Snapshot / Apply / "
          "Restore calls, crashes after publication, payloads from tens of bytes to several transfer chunks, lagging followers.", "6 C10"),
